@@ -352,6 +352,101 @@ def derive_graph(stream) -> dict:
     return g
 
 
+def check_emit_receivers(model: Model, col, rule: str):
+    """Every AddInstruction of a lowering handler goes to the *current* block: the context's BasicBlock
+    property, or a local that still is the current block (created by CreateBasicBlock with no visit,
+    block creation or block end since)."""
+    lv = model.cls(LOWER, "LowerToIRVisitor")
+    n = 0
+    for name, h in sorted(lv.methods.items()):
+        if not name.startswith("v_") or len(h.args.args) < 3:
+            continue
+        ctxp = h.args.args[2].arg
+        bad = {}
+        seen_here = 0
+        for evs, status in paths(h.body):
+            if status == "raise":
+                continue
+            current = set()
+            for e in evs:
+                node = e.node if e.kind in ("stmt", "return") else None
+                if node is None:
+                    continue
+                calls = [c for c in ast.walk(node) if isinstance(c, ast.Call)]
+                for c in calls:
+                    if last_attr(c) == "AddInstruction" and isinstance(c.func, ast.Attribute):
+                        seen_here += 1
+                        r = c.func.value
+                        ok = (isinstance(r, ast.Attribute) and r.attr == "BasicBlock" and isinstance(r.value, ast.Name) and r.value.id == ctxp) or \
+                             (isinstance(r, ast.Name) and r.id in current)
+                        if not ok:
+                            bad[(c.lineno, unparse(c)[:60])] = c
+                if any(last_attr(c) in ("v_Visit", "v_Generic", "EndBasicBlock", "BeginLoop", "EndLoop", "CreateBasicBlock") or (last_attr(c) or "").startswith("v_") for c in calls):
+                    current = set()
+                if isinstance(node, ast.Assign) and isinstance(node.value, ast.Call) and last_attr(node.value) == "CreateBasicBlock" and isinstance(node.targets[0], ast.Name):
+                    current = {node.targets[0].id}
+        if seen_here:
+            n += 1
+            col.check(not bad, rule, f"{LOWER}::{name} emits into the current block", "every instruction is added to the context's current block",
+                      "; ".join(f"`{k[1]}` adds to a block that need not be the current one (the visited child may have started new blocks): the instruction lands in the middle of other control flow"
+                                for k in sorted(bad)[:2]), LOWER, (list(bad.values()) or [h])[0])
+    col.floor(rule, "handlers that add instructions", n, 12)
+
+
+def check_scope_tables(model: Model, col, rule: str):
+    """The lowering context's per-function name tables: every dict field that is written while a function is
+    lowered is reset when a function is entered, and a field that aliases such tables (the ChainMap used for
+    lookups) is rebuilt after every rebinding of a table."""
+    ctx = model.cls(LOWER, "LowerToIRVisitor.Context") if "LowerToIRVisitor.Context" in {c.name for c in model.classes.values() if c.file == LOWER} else None
+    if ctx is None:
+        ctx = next((c for c in model.classes.values() if c.file == LOWER and c.name.endswith("Context")), None)
+    if ctx is None:
+        raise AnchorMissing(f"{LOWER}: lowering Context class")
+    init = ctx.own_method("__init__")
+    enter = ctx.own_method("OnEnterFunction")
+    selfn = init.args.args[0].arg
+    dict_fields = set()
+    for n in ast.walk(init):
+        if isinstance(n, ast.Assign) and isinstance(n.targets[0], ast.Attribute) and (isinstance(n.value, ast.Dict) or (isinstance(n.value, ast.Call) and dotted(n.value.func) in ("dict", "collections.OrderedDict"))):
+            dict_fields.add(n.targets[0].attr)
+    written = {}
+    for mname, m in ctx.methods.items():
+        if mname in ("__init__", "OnEnterModule"):
+            continue
+        for n in ast.walk(m):
+            if isinstance(n, (ast.Assign, ast.AugAssign)):
+                for t in (n.targets if isinstance(n, ast.Assign) else [n.target]):
+                    if isinstance(t, ast.Subscript) and isinstance(t.value, ast.Attribute) and t.value.attr in dict_fields:
+                        written.setdefault(t.value.attr, []).append((mname, n))
+    col.floor(rule, "per-function name tables of the lowering context", len(written), 1)
+    rebinds = {}
+    for n in ast.walk(enter):
+        if isinstance(n, ast.Assign) and isinstance(n.targets[0], ast.Attribute):
+            rebinds.setdefault(n.targets[0].attr, []).append(n)
+    for f, ws in sorted(written.items()):
+        fresh = [n for n in rebinds.get(f, []) if isinstance(n.value, ast.Dict) and not n.value.keys or (isinstance(n.value, ast.Call) and dotted(n.value.func) == "dict" and not n.value.args)]
+        cleared = [c for c in ast.walk(enter) if isinstance(c, ast.Call) and last_attr(c) == "clear" and isinstance(c.func.value, ast.Attribute) and c.func.value.attr == f]
+        first_write = min([n.lineno for mname, n in ws if mname == "OnEnterFunction"] or [10 ** 9])
+        reset_line = min([n.lineno for n in fresh] + [c.lineno for c in cleared] or [10 ** 9])
+        col.check(reset_line < first_write and reset_line < 10 ** 9, rule, f"{LOWER}::Context.OnEnterFunction resets {f}", "the table is emptied when a function is entered",
+                  f"the name table `{f}` (written by {sorted({m for m, _ in ws})}) is not emptied when a function is entered: names of a previously lowered function leak into the next one and change which scope a name resolves to",
+                  LOWER, enter)
+    # aliases
+    for mname, m in ctx.methods.items():
+        for n in ast.walk(m):
+            if isinstance(n, ast.Assign) and isinstance(n.targets[0], ast.Attribute) and isinstance(n.value, ast.Call):
+                parts = [a.attr for a in n.value.args if isinstance(a, ast.Attribute) and a.attr in dict_fields]
+                if not parts:
+                    continue
+                alias = n.targets[0].attr
+                for m2name, m2 in ctx.methods.items():
+                    for r in ast.walk(m2):
+                        if isinstance(r, ast.Assign) and isinstance(r.targets[0], ast.Attribute) and r.targets[0].attr in parts and not (m2name == "__init__" and mname != "__init__"):
+                            later = [x for x in ast.walk(m2) if isinstance(x, ast.Assign) and isinstance(x.targets[0], ast.Attribute) and x.targets[0].attr == alias and x.lineno > r.lineno]
+                            col.check(bool(later), rule, f"{LOWER}::Context.{m2name} rebuilds {alias} after rebinding {r.targets[0].attr}", "the lookup view is rebuilt from the new table",
+                                      f"`{unparse(r)[:50]}` rebinds a table that `{alias}` (built in {mname}) still refers to by its old object: lookups keep reading the old table", LOWER, r)
+
+
 def run_templates(model: Model, col, G: Grammar, rule: str):
     lv = model.cls(LOWER, "LowerToIRVisitor")
     bi = model.cls(IR, "BranchInstruction").own_method("__init__")
@@ -384,6 +479,7 @@ def run_templates(model: Model, col, G: Grammar, rule: str):
         col.check(len(st) == 1 and st[0].targets[0].attr == props[prop] and isinstance(st[0].value, ast.Name) and st[0].value.id == m.args.args[1].arg,
                   rule, f"{IR}::BranchInstruction.{setter}", f"writes the field {prop} reads", f"does not write the field that {prop} returns", IR, m)
 
+    check_emit_receivers(model, col, rule)
     constructs = [
         ("for", "ForStatement", "v_ForStatement"),
         ("while", "WhileStatement", "v_WhileStatement"),
